@@ -53,6 +53,8 @@ def fmt_case(c):
     lines.append("sched %s" % ("-" if s is None else ("." if s == [] else ",".join(map(str, s)))))
     if c.get("reps", 1) != 1:
         lines.append("reps %d" % c["reps"])
+    if c.get("freeze"):
+        lines.append("freeze %d %d" % tuple(c["freeze"]))
     lines.append("end")
     return "\n".join(lines) + "\n"
 
